@@ -38,9 +38,11 @@ LexLess(r1, r2, cols, rev, i) ==
        ELSE IF Has(rev, c) THEN a > b ELSE a < b
 SortRows(rows, cols, rev) == SortSeq(rows, LAMBDA r1, r2 : LexLess(r1, r2, cols, rev, 1))
 Canon(t) == SortRows(t.rows, t.cols, <<>>)
+\* bag equality by counting (no ordering of cell values needed: cells may be fractions <<"q", n, d>>)
+CountRow(rows, r) == Cardinality({i \in 1..Len(rows) : rows[i] = r})
 BagEq(t1, t2) == /\ SetOf(t1.cols) = SetOf(t2.cols)
                  /\ Len(t1.rows) = Len(t2.rows)
-                 /\ SortRows(t1.rows, t1.cols, <<>>) = SortRows(t2.rows, t1.cols, <<>>)
+                 /\ \A i \in 1..Len(t1.rows) : CountRow(t1.rows, t1.rows[i]) = CountRow(t2.rows, t1.rows[i])
 KeyOf(r, ks) == [i \in 1..Len(ks) |-> r[ks[i]]]
 TotalOn(rows, cols) == \A i, j \in 1..Len(rows) : i # j => KeyOf(rows[i], cols) # KeyOf(rows[j], cols)
 NullFreeOn(rows, cols) == \A i \in 1..Len(rows) : \A k \in 1..Len(cols) : rows[i][cols[k]] # NULL
@@ -71,6 +73,10 @@ AggVal(fn, vals) ==
     [] fn = "size"    -> Len(vals)
     [] fn = "_size"   -> Len(vals)
     [] fn = "nunique" -> Cardinality(SetOf(nn))
+    [] fn = "mean"    -> IF Len(nn) = 0 THEN NULL ELSE Quot(SumSeq(nn), Len(nn))
+\* (polars_nunique_counts_null): the Polars executor counts the missing value as one more distinct value
+AggValD(fn, vals, dev) ==
+  IF fn = "nunique" /\ "polars_nunique_counts_null" \in dev THEN Cardinality(SetOf(vals)) ELSE AggVal(fn, vals)
 ZeroArgAggs == {"_size"}
 SrcVals(rows, src) == [i \in 1..Len(rows) |-> IF src = "" THEN 1 ELSE rows[i][src]]
 
@@ -90,7 +96,7 @@ Project(t, asg, grp, dev) ==
       OutRow(key, g) == [c \in SetOf(oc) |->
                            IF Has(grp, c) THEN key[CHOOSE i \in 1..Len(grp) : grp[i] = c]
                            ELSE LET a == asg[CHOOSE i \in 1..Len(asg) : asg[i][1] = c]
-                                IN AggVal(a[2], SrcVals(g, a[3]))]
+                                IN AggValD(a[2], SrcVals(g, a[3]), dev)]
   IN IF Len(grp) = 0
        THEN IF Len(rows0) = 0 /\ "empty_project_no_row" \in dev
               THEN Tbl(oc, <<>>)
@@ -101,7 +107,7 @@ Project(t, asg, grp, dev) ==
 \* asg = << <<target, fn, srccol-or-"", n>>, ... >>; partition_by part (<<>> = whole table),
 \* order_by ord, reversed columns rev.  Keeps every row (C09); value over the row's ordered partition.
 OrderedFns   == {"cumsum", "cummax", "cummin", "shift", "_row_number"}
-UnorderedFns == {"sum", "max", "min", "count", "size", "_size"}
+UnorderedFns == {"sum", "max", "min", "count", "size", "_size", "mean", "nunique"}
 \* tags of ill-formed aggregate expressions (C26): "nonagg" = `c + 1` (no aggregation),
 \* "complex" = `c.sum() + 1` / `c.cumsum() + 1` (arithmetic on an aggregate), "argexpr" = `(c + 1).sum()`
 BadFns == {"nonagg", "complex", "argexpr"}
@@ -126,7 +132,7 @@ WinVal(rows, i, a, part, ord, rev, dev) ==
             [] fn = "cummin" -> IF hole THEN NULL ELSE MinOfSeq(upto)
             [] fn = "shift"  -> IF pos - n >= 1 /\ pos - n <= Len(sorted) THEN val(pos - n) ELSE NULL
             [] fn = "_row_number" -> pos
-            [] OTHER -> AggVal(fn, all)
+            [] OTHER -> AggValD(fn, all, dev)
 WExtend(t, asg, part, ord, rev, dev) ==
   LET tg == [i \in 1..Len(asg) |-> asg[i][1]]
       oc == AppendNew(t.cols, tg)
@@ -237,7 +243,7 @@ WExtendOK(asg, part, ord, rev, cols) ==
        /\ a[2] \in OrderedFns \cup UnorderedFns
        \* ordered window functions need order_by; plain aggregates forbid it (except size/_size/mean)
        /\ (a[2] \in OrderedFns) => (Len(ord) > 0)
-       /\ (a[2] \in {"sum", "max", "min", "count"}) => (Len(ord) = 0)
+       /\ (a[2] \in {"sum", "max", "min", "count", "mean"}) => (Len(ord) = 0)
        /\ \A j \in 1..Len(asg) : i # j => asg[j][3] # a[1]
 ProjectOK(asg, grp, cols) ==
   LET tg == Targets(asg) IN
